@@ -44,6 +44,39 @@ func cleanArgsIn(c *Ctx, args []string) []string {
 	return out
 }
 
+// rawSpellingResolves follows a relative argument component by component the way the operating system does:
+// every component that is passed through (also by "..", "." or a trailing slash) has to be an existing directory.
+func rawSpellingResolves(c *Ctx, raw string) bool {
+	if path.IsAbs(raw) || strings.HasPrefix(raw, "../") {
+		return true // absolute and parent-relative spellings are built from existing paths only
+	}
+	comps := strings.Split(raw, "/")
+	var cur []string
+	for i, comp := range comps {
+		isDir := func() bool {
+			p := strings.Join(cur, "/")
+			return p == "" || c.Pre.Work.Dirs[p]
+		}
+		switch comp {
+		case "", ".":
+			if i > 0 && !isDir() {
+				return false
+			}
+		case "..":
+			if !isDir() || len(cur) == 0 {
+				return len(cur) == 0 && false
+			}
+			cur = cur[:len(cur)-1]
+		default:
+			if i > 0 && !isDir() {
+				return false
+			}
+			cur = append(cur, comp)
+		}
+	}
+	return true
+}
+
 func blobID(content string) string { return gitfmt.HashObject("blob", []byte(content)) }
 
 // mapsEqual compares two path->id maps and describes the first differences.
@@ -112,6 +145,19 @@ func oracleAdd(c *Ctx) error {
 			}
 			refuse = true
 		}
+	}
+	// spellings that only a lexical clean-up resolves ("f/" for a file, "nosuch/../f", "<file>/../f"): the operating
+	// system does not find such a path, so refusing it is as right as reading it lexically; what must not happen is a
+	// third thing (the pinned tree took the tracked file for deleted and unstaged it)
+	lexicalOnly := false
+	for _, raw := range c.Step.Args[1:] {
+		if !rawSpellingResolves(c, raw) {
+			lexicalOnly = true
+		}
+	}
+	if lexicalOnly && !refuse && c.Res.Exit == 1 {
+		stats.Label("add:lexical-only-spelling-refused")
+		return unchangedAll(c, "add refused a spelling that only resolves lexically")
 	}
 	if refuse {
 		if c.Res.Exit != 1 && !ambiguous {
@@ -285,8 +331,8 @@ func oracleRm(c *Ctx) error {
 	}
 	occupied := false
 	for p := range named {
-		if pre.Work.Dirs[p] || underFile(pre, p) {
-			occupied = true // a tracked path whose place in the working tree is taken by a directory / lies beneath a file
+		if pre.Work.Dirs[p] {
+			occupied = true // a tracked path whose place in the working tree is taken by a directory (which may hold untracked files)
 		}
 	}
 	if c.Res.Exit != 0 && occupied {
